@@ -24,7 +24,7 @@ ASCODED = "replace"
 
 CONSTS = {
     # name: (npeers, ncids, variants, maxlog, snaps, downs, installs)
-    "quick": (2, 2, '{"a","b"}', 3, 2, 2, 2),
+    "quick": (2, 2, '{"a","b"}', 3, 2, 1, 2),
     "thorough": (2, 2, '{"a","b"}', 4, 2, 2, 2),
     "thorough3": (3, 1, '{"a","b"}', 3, 2, 2, 2),
     "w_install": (2, 2, '{"a","b"}', 4, 1, 0, 1),
@@ -145,8 +145,10 @@ def witness_scripts(ctx):
             raise vcheck.Infra("could not parse the TLC counterexample for %s" % inv)
         out.append((states, "witness:" + inv, "merge"))
     # reachability goals on the as-coded model: an install that has to delete / overwrite entries
-    for goal, cn in (("NoInstallOverDeleted", "w_install"), ("NoInstallOverChanged", "w_install"),
-                     ("NoRestartAfterKillBehind", "w_restart")):
+    goals = (("NoInstallOverDeleted", "w_install"), ("NoInstallOverChanged", "w_install"), ("NoRestartAfterKillBehind", "w_restart"))
+    if ctx.quick():
+        goals = goals[1:]      # the merge-mode PrefixInv witness already is an install over a deleted CID
+    for goal, cn in goals:
         cfg = write_cfg(ctx, "x_goal_" + goal, CONSTS[cn], ASCODED, "MCSpec", [], [goal], view="View")
         r = ctx.tlc("RaftPinsetMC.tla", cfg, workers=4, timeout=1200, count=False, expect_violation=True)
         if not r.violation:
@@ -266,7 +268,7 @@ def raft_seam(ctx):
     TrailingLogs=0 real raft then installs a snapshot on the restarted, non-empty replica)."""
     from props import c17
     rng = random.Random(ctx.seed + 17)
-    gen_cfg = c17.write_cfg(ctx, "c01gen", 3, 2, 5, 2, 2, check=False)
+    gen_cfg = c17.write_cfg(ctx, "c01gen", 3, 2, 4 if ctx.quick() else 5, 2, 1 if ctx.quick() else 2, check=False)
 
     def want(steps):
         acts = [s["a"] for s in steps]
